@@ -65,11 +65,24 @@ def tw_is_zero(v):
     return all(x == 0 for x in NUM.leaves(v))
 
 def tw_inv(ty, x):
-    """x^{-1} by x^(|F|-2)"""
-    deg = {'Fq': 1, 'Fq2': 2, 'Fq4': 4, 'Fq12': 12}[ty]
+    """x^{-1} by the norm / adjugate formulas of the quadratic and cubic extensions (textbook)"""
+    A = NUM
     if ty == 'Fq':
         return pow(x, -1, Q)
-    return pow_num(NUM, ty, x, Q**deg - 2)
+    below = BELOW[ty]
+    cs = x[2]
+    M = lambda p, q: A.mul(below, p, q)
+    NR = lambda p: A.nonresidue_times(below, p)
+    if ARITY[ty] == 2:
+        n = A.sub(below, M(cs[0], cs[0]), NR(M(cs[1], cs[1])))
+        ni = tw_inv(below, n)
+        return mk(ty, [M(cs[0], ni), A.neg(below, M(cs[1], ni))])
+    t0 = A.sub(below, M(cs[0], cs[0]), NR(M(cs[1], cs[2])))
+    t1 = A.sub(below, NR(M(cs[2], cs[2])), M(cs[0], cs[1]))
+    t2 = A.sub(below, M(cs[1], cs[1]), M(cs[0], cs[2]))
+    n = A.add(below, M(cs[0], t0), NR(A.add(below, M(cs[2], t1), M(cs[1], t2))))
+    ni = tw_inv(below, n)
+    return mk(ty, [M(t0, ni), M(t1, ni), M(t2, ni)])
 
 def tw_frob(ty, x, k):
     return pow_num(NUM, ty, x, Q**k) if ty != 'Fq' else x
